@@ -938,14 +938,25 @@ pub fn worker_main(args: &[String]) -> i32 {
     // attributes it to the journaled case (a hang / near-endless loop)
     static CASE_STARTED_MS: std::sync::atomic::AtomicU64 = std::sync::atomic::AtomicU64::new(0);
     static CASE_IDX: std::sync::atomic::AtomicU64 = std::sync::atomic::AtomicU64::new(u64::MAX);
+    static CASE_STARTED_CPU_MS: std::sync::atomic::AtomicU64 = std::sync::atomic::AtomicU64::new(0);
+    fn process_cpu_ms() -> u64 {
+        let mut ts = libc::timespec { tv_sec: 0, tv_nsec: 0 };
+        unsafe { libc::clock_gettime(libc::CLOCK_PROCESS_CPUTIME_ID, &mut ts) };
+        ts.tv_sec as u64 * 1000 + ts.tv_nsec as u64 / 1_000_000
+    }
     let t_origin = Instant::now();
     {
         let t_origin = t_origin;
         std::thread::spawn(move || loop {
             std::thread::sleep(Duration::from_millis(200));
             let started = CASE_STARTED_MS.load(std::sync::atomic::Ordering::Relaxed);
+            let started_cpu = CASE_STARTED_CPU_MS.load(std::sync::atomic::Ordering::Relaxed);
             let idx = CASE_IDX.load(std::sync::atomic::Ordering::Relaxed);
-            if idx != u64::MAX && (t_origin.elapsed().as_millis() as u64).saturating_sub(started) > 10000 {
+            // a hang burns CPU: 10 s of process CPU time on one case (wall time would depend on how
+            // loaded the machine is); a case that blocks without using CPU is given 120 s of wall time
+            let cpu = process_cpu_ms().saturating_sub(started_cpu);
+            let wall = (t_origin.elapsed().as_millis() as u64).saturating_sub(started);
+            if idx != u64::MAX && (cpu > 10000 || wall > 120000) {
                 unsafe { libc::_exit(3) };
             }
         });
@@ -976,6 +987,7 @@ pub fn worker_main(args: &[String]) -> i32 {
             }
         }
         CASE_STARTED_MS.store(t_origin.elapsed().as_millis() as u64, std::sync::atomic::Ordering::Relaxed);
+        CASE_STARTED_CPU_MS.store(process_cpu_ms(), std::sync::atomic::Ordering::Relaxed);
         CASE_IDX.store(idx, std::sync::atomic::Ordering::Relaxed);
         let c0 = thread_cpu_time();
         let r = exec(t, data, &ctx, &or);
